@@ -39,7 +39,13 @@ type schedExec struct {
 	hang    string
 	outcome string // set by the scenario's end oracle: what this execution observably did
 	policy  schedPolicy
+	// callers in the middle of a call that may give up (context cancelled mid-call), and how many such events remain
+	inflight func() []string
+	giveUp   func(name string)
+	giveUps  int
 }
+
+const envGiveUp = "~env:caller-gives-up:"
 
 // schedPolicy selects the DEFAULT schedule around which deviations are counted (the menu at every point is the same;
 // only its canonical order changes, and with it which schedules lie within the deviation bound). The zero policy is
@@ -155,6 +161,11 @@ func (x *schedExec) drive(prefix []int, maxPoints int, atPoint func() *pt.Violat
 		if blocked {
 			names = append(names, envExpire)
 		}
+		if x.giveUps > 0 && x.inflight != nil {
+			for _, c := range x.inflight() {
+				names = append(names, envGiveUp+c)
+			}
+		}
 		if len(names) == 0 {
 			if x.allDone() {
 				// let background work that only waits for time (none expected) settle, then stop
@@ -195,6 +206,11 @@ func (x *schedExec) drive(prefix []int, maxPoints int, atPoint func() *pt.Violat
 		x.trace = append(x.trace, pick)
 		if pick == envExpire {
 			time.Sleep(5100 * time.Millisecond)
+			continue
+		}
+		if strings.HasPrefix(pick, envGiveUp) {
+			x.giveUps--
+			x.giveUp(strings.TrimPrefix(pick, envGiveUp))
 			continue
 		}
 		x.lastRan = pick
@@ -343,6 +359,10 @@ func init() {
 		execs := 0
 		run1 := func(prefix []int) schedResult {
 			execs++
+			// journal: the schedule about to run (a worker that dies inside it - a panic in a server goroutine, a
+			// goroutine left blocked for ever - is turned into a violation with this schedule as replay)
+			jb, _ := json.Marshal(map[string]interface{}{"scenario": p.Scenario, "args": p.Args, "choices": append([]int{}, prefix...)})
+			emit(pt.Line{I: -2, Info: jb}, true)
 			if execs%32 == 0 {
 				runtime.GC() // collections happen between executions only (SetGCPercent(-1) above): a collection inside
 				// an execution re-queues the running goroutine behind the ones it woke and changes the interleaving
